@@ -454,7 +454,16 @@ pub fn conc_configs(prop: &str, thorough: bool) -> Vec<SimConfig> {
             c.allow_h1 = false;
             c.ev_dial_fail = false;
             c.ev_close = false;
-            vec![c]
+            // HTTP/1.1: a connection released while another operation is between two critical sections is still
+            // offered to the request that waits for its own attempt
+            let mut d = SimConfig::base("n2-h1-release-overlaps");
+            d.allow_h2 = false;
+            d.ev_dial_fail = false;
+            d.ev_close = false;
+            let mut e = d.clone();
+            e.name = "n2-h1-release-overlaps-preempt-false".into();
+            e.continue_after_preemption = false;
+            vec![c, d, e]
         }
         ("C15", _) => {
             let mut v = if thorough { pick(&["burst-k2-max1-close", "mixed-n2-max1", "burst-k3-max1", "burst-k3-max2"]) } else { pick(&["burst-k2-max1-close"]) };
